@@ -72,6 +72,33 @@ class Gen:
                 out += ("! " if hdr else "| ") + self.inline(a, 1) + "\n"
         return out + "|}\n\n"
 
+    def deflist(self, anc):
+        """definition list: inline (`; t : d`) or two-line spelling, further `:` lines, and - without
+        a blank line - list lines of another kind right behind it"""
+        out = ""
+        for _ in range(self.rnd.randint(1, 2)):
+            if self.rnd.random() < 0.5:
+                out += "; " + self.word(anc + ["DefinitionTerm"]) + " : " + self.word(anc + ["DefinitionDescription"]) + "\n"
+            else:
+                out += ";" + self.word(anc + ["DefinitionTerm"]) + "\n:" + self.word(anc + ["DefinitionDescription"]) + "\n"
+            for _ in range(self.rnd.randint(0, 2)):
+                out += ": " + self.word(anc + ["DefinitionDescription"]) + "\n"
+            if self.rnd.random() < 0.5:
+                kind = self.rnd.choice("*#")
+                cls = "ItemList-ul" if kind == "*" else "ItemList-ol"
+                for _ in range(self.rnd.randint(1, 2)):
+                    out += kind + " " + self.word(anc + [cls, "Item"]) + "\n"
+        return out + "\n"
+
+    def tight(self, anc):
+        """blocks separated by a single newline only: list, text line, (table,) list"""
+        out = self.lst(anc, depth=2).rstrip("\n") + "\n"
+        out += self.word(anc) + "\n"
+        if self.rnd.random() < 0.4:
+            out += "{|\n|-\n| " + self.word(anc + ["Table", "Row", "Cell"]) + "\n|}\n"
+        out += self.lst(anc, depth=2).rstrip("\n") + "\n"
+        return out + "\n"
+
     def pre(self, anc):
         return " " + self.word(anc + ["PreFormatted"]) + "\n\n"
 
@@ -79,11 +106,15 @@ class Gen:
         out = ""
         for _ in range(self.rnd.randint(1, 3)):
             k = self.rnd.random()
-            if k < 0.5:
+            if k < 0.4:
                 out += self.paragraph(anc)
-            elif k < 0.72:
+            elif k < 0.6:
                 out += self.lst(anc)
-            elif k < 0.9:
+            elif k < 0.7:
+                out += self.deflist(anc)
+            elif k < 0.78:
+                out += self.tight(anc)
+            elif k < 0.92:
                 out += self.table(anc)
             else:
                 out += self.pre(anc)
@@ -132,7 +163,8 @@ def tree_words(tree):
             return "ItemList-ol" if getattr(n, "numbered", False) else "ItemList-ul"
         if c == "ArticleLink":
             return f"ArticleLink:{n.target}"
-        if c in ("Item", "Table", "Row", "Cell", "Strong", "Emphasized", "NamedURL", "Reference", "PreFormatted"):
+        if c in ("Item", "Table", "Row", "Cell", "Strong", "Emphasized", "NamedURL", "Reference", "PreFormatted",
+                 "DefinitionTerm", "DefinitionDescription"):
             return c
         return None
 
